@@ -438,6 +438,11 @@ func (w *binaryWriter) Finish() error {
 		if w.err = w.emit(seq); w.err != nil {
 			return w.err
 		}
+
+		// Start a new datagram, with its own symbol table, for values written
+		// after this call; they are emitted by the next Finish.
+		w.bufs.push(&datagram{})
+		w.lstb = NewSymbolTableBuilder(lst.Imports()...)
 	}
 
 	return nil
